@@ -118,6 +118,38 @@ def gen_feature_program(rng, feature):
              '      action: verif.act tag="tc" value=3', '      on-success: [tj]', '    tj:', '      join: all',
              '      action: verif.act tag="tj" value=<% $.a %>', '      publish:', '        v: <% $.a + $.b %>']
         return {'yaml': '\n'.join(y) + '\n', 'oracle': {}, 'meta': {'feature': feature}}
+    if feature == 'defaults':
+        # one sub-workflow definition with defaulted input parameters, started several times - in parallel branches and
+        # afterwards in sequence - some starts passing explicit values, others relying on the defaults.  Prescribed: every
+        # start sees the explicit value it was given, else the declared default (meta['want']), whatever the delivery
+        # order and whether or not the in-memory definition caches are dropped in between.
+        n = rng.choice([2, 3, 4])
+        calls = []
+        for i in range(n + 1):
+            calls.append({'g': rng.choice([None, None, 'bye%d' % i]), 'h': rng.choice([None, {'k': i + 10}])})
+        if all(c['g'] is None for c in calls[:n]):
+            calls[0]['g'] = 'bye0'
+        if all(c['g'] is not None for c in calls):
+            calls[-1]['g'] = None
+        y = ["version: '2.0'", 'main:', '  output:'] + ['    r%d: <%% $.get(r%d, null) %%>' % (i, i) for i in range(n + 1)]
+        y += ['  tasks:', '    s0:', '      action: verif.act tag="s0"', '      on-success: [%s]' % ', '.join('c%d' % i for i in range(n))]
+
+        def call(i, c):
+            args = ''
+            if c['g'] is not None:
+                args += ' g="%s"' % c['g']
+            if c['h'] is not None:
+                args += " h=<% dict(k => " + str(c['h']['k']) + ") %>"
+            return ['    c%d:' % i, '      workflow: sub%s' % args, '      publish:', '        r%d: <%% task().result %%>' % i]
+        for i in range(n):
+            y += call(i, calls[i]) + ['      on-success: [j]']
+        y += ['    j:', '      join: all', '      action: verif.act tag="j"', '      on-success: [c%d]' % n]
+        y += call(n, calls[n])
+        y += ['sub:', '  input:', '    - g: hello', '    - h:', '        k: 1', '  output:', '    g: <% $.g %>', '    k: <% $.h.k %>',
+              '  tasks:', '    w1:', '      action: verif.act tag="w1"']
+        want = {'r%d' % i: {'g': c['g'] if c['g'] is not None else 'hello', 'k': c['h']['k'] if c['h'] is not None else 1}
+                for i, c in enumerate(calls)}
+        return {'yaml': '\n'.join(y) + '\n', 'oracle': {}, 'meta': {'feature': feature, 'want': want}}
     if feature == 'compose':
         return gen_composed_program(rng)
     raise ValueError(feature)
@@ -220,8 +252,49 @@ def gen_composed_program(rng):
 FEATURES = ['with_items', 'retry', 'policies', 'subwf', 'dataflow', 'compose']
 
 
+# ------------------------------------------------------------------ cached specifications stay what was parsed
+def _fingerprint(o, depth=0, seen=None):
+    """Canonical text of a specification object graph (attributes, dictionaries, lists)."""
+    seen = seen if seen is not None else set()
+    if isinstance(o, (str, int, float, bool, type(None))):
+        return repr(o)
+    if depth > 8 or id(o) in seen:
+        return '...'
+    seen = seen | {id(o)}
+    if isinstance(o, dict):
+        return '{' + ','.join('%s:%s' % (_fingerprint(k, depth + 1, seen), _fingerprint(v, depth + 1, seen))
+                              for k, v in sorted(o.items(), key=lambda kv: repr(kv[0]))) + '}'
+    if isinstance(o, (list, tuple)):
+        return '[' + ','.join(_fingerprint(x, depth + 1, seen) for x in o) + ']'
+    if hasattr(o, '__dict__') and type(o).__module__.startswith('mistral.lang'):
+        # attributes named *_cache are memo tables the specification fills on demand (inbound / outbound tasks)
+        return type(o).__name__ + _fingerprint({k: v for k, v in vars(o).items() if not callable(v) and not k.endswith('_cache')},
+                                               depth + 1, seen)
+    return type(o).__name__
+
+
+def cached_spec_changes(known):
+    """Specification objects sitting in the parser's caches whose content differs from what it was when first seen
+    (C02: the caches hold what was parsed from the stored definition, nothing a run wrote into it)."""
+    from mistral.lang import parser as spec_parser
+    out = []
+    for cname in ('_WF_EX_CACHE', '_WF_DEF_CACHE'):
+        cache = getattr(spec_parser, cname, None)
+        if cache is None:
+            continue
+        for key, spec in list(cache.items()):
+            fp = _fingerprint(spec)
+            k = (cname, id(spec))
+            if k not in known:
+                known[k] = (fp, spec)           # the reference keeps id() from being reused
+            elif known[k][0] != fp:
+                out.append((cname, getattr(spec, 'get_name', lambda: '?')()))
+                known[k] = (fp, spec)
+    return out
+
+
 # ------------------------------------------------------------------ one run
-def run_one(d, prog, seed, inject_pause=False):
+def run_one(d, prog, seed, inject_pause=False, inject_evict=False):
     """Seeded schedule with virtual clock on the real engine; oracles after every event."""
     d.reset(seed)
     d.create_workflows(prog['yaml'])
@@ -259,8 +332,14 @@ def run_one(d, prog, seed, inject_pause=False):
                                       'what': 'task %s exists after %s although the task %s it requires has not succeeded (%s)' % (nm, label, r, by_name.get(r))})
         return v
 
+    known_specs = {}
+
     def on_event(ev, o):
         n_events[0] += 1
+        for cname, wname in cached_spec_changes(known_specs):
+            if not any(f['signature'].startswith('cached-spec-modified') for f in fails):
+                fails.append({'property': 'C02', 'signature': 'cached-spec-modified:%s' % cname,
+                              'what': 'the cached specification of workflow %s in %s was modified by event %s' % (wname, cname, ev[0])})
         if o == 'internal':
             fails.append({'property': 'C01', 'signature': 'internal-error:%s' % (d.entry_errors[-1]['type'] if d.entry_errors else '?'),
                           'what': 'non-declared exception: %s' % (d.entry_errors[-1]['msg'][:150] if d.entry_errors else '?')})
@@ -270,6 +349,10 @@ def run_one(d, prog, seed, inject_pause=False):
     steps = 0
     while steps < 400:
         evs = [e for e in d.enabled() if not d._is_integrity_job(e)]
+        if inject_evict and rng.random() < 0.25:
+            # parser.clear_caches(): the engine's in-memory definition caches dropped (restart, eviction)
+            from mistral.lang import parser as spec_parser
+            spec_parser.clear_caches()
         if inject_pause and rng.random() < 0.06:
             if not paused:
                 d.operator('pause', wid)
@@ -325,6 +408,12 @@ def final_oracles(d, v, meta):
     fails = []
     f = meta['feature']
     root = v['wf']['R']
+    if f == 'defaults':
+        if root['state'] != 'SUCCESS' or (root['output'] or {}) != meta['want']:
+            fails.append({'property': 'C02', 'signature': 'defaults:wrong-input-seen',
+                          'what': 'workflow %s, sub-workflow starts saw %s, the definition and the calls prescribe %s' % (
+                              root['state'], json.dumps(root['output'], sort_keys=True), json.dumps(meta['want'], sort_keys=True))})
+        return fails
     if f == 'reverse':
         req, outs, target = meta['requires'], meta['outs'], meta['target']
         needed, todo = [], [target]
@@ -418,8 +507,8 @@ def _worker(job):
     if d is None or d.scheduler_type != job.get('sched', 'legacy'):
         d = ed.Driver(job.get('sched', 'legacy'), 0)
         _W['d'] = d
-    r = run_one(d, job['prog'], job['seed'], inject_pause=job.get('pause', False))
-    r['job'] = {'seed': job['seed'], 'sched': job.get('sched', 'legacy'), 'pause': job.get('pause', False), 'gi': job.get('gi')}
+    r = run_one(d, job['prog'], job['seed'], inject_pause=job.get('pause', False), inject_evict=job.get('evict', False))
+    r['job'] = {'seed': job['seed'], 'sched': job.get('sched', 'legacy'), 'pause': job.get('pause', False), 'evict': job.get('evict', False), 'gi': job.get('gi')}
     r['yaml'] = job['prog']['yaml']
     r['oracle'] = {json.dumps(k): v for k, v in job['prog']['oracle'].items()}
     return r
@@ -434,7 +523,7 @@ def explore(ctx, props, features, n_programs, n_schedules, suite='engine_explore
         prog = gen_feature_program(rng, f)
         for k in range(n_schedules):
             jobs.append({'prog': prog, 'seed': ctx.seed * 9973 + gi * 131 + k, 'gi': gi, 'sched': 'default' if k % 3 == 2 else 'legacy',
-                         'pause': (k % 4 == 3)})
+                         'pause': (k % 4 == 3), 'evict': (k % 2 == 1)})
     with mp.get_context('spawn').Pool(min(core.NPROC, max(1, len(jobs) // 4))) as pool:
         results = pool.map(_worker, jobs, chunksize=max(1, len(jobs) // (core.NPROC * 4)))
     by = collections.defaultdict(list)
@@ -475,7 +564,7 @@ def replay(obj):
     job = r.get('job') or (r.get('jobs') or [{}])[0]
     d = ed.Driver(job.get('sched', 'legacy'), 0)
     prog = {'yaml': r['yaml'], 'oracle': {tuple(json.loads(k)): tuple(v) for k, v in r.get('oracle', {}).items()}, 'meta': r['meta']}
-    res = run_one(d, prog, job.get('seed', 0), inject_pause=job.get('pause', False))
+    res = run_one(d, prog, job.get('seed', 0), inject_pause=job.get('pause', False), inject_evict=job.get('evict', False))
     print(r['yaml'])
     print('summary', res['summary'])
     for f in res['failures']:
